@@ -112,16 +112,15 @@ def sc_yield(V, nmoves=2, cycles=2):
             return  # numpy's own refusal of an all-zero weight vector (replay only)
         V.fail("scheduling-completes", info=info + ":ValueError:" + str(ex)[:60])
         return
-    due = [nm for nm in names if _true(V, (step % iv[nm]) == 0)]
-    notdue = [nm for nm in names if _true(V, (step % iv[nm]) != 0)]
-    if not V.prove(len(due) + len(notdue) == nmoves, "due-set-decided-by-the-code", info=info):
-        return
+    # which moves are due is decided here (a fork where the code under test left it open), so that a
+    # scheduler that never looked at a move's interval is judged by the clauses below
+    due = [nm for nm in names if bool((step % iv[nm]) == 0)]
     wsum = sum((w[nm] for nm in due), 0.0)
+    nfree_expected = cycles - sum(mn[nm] for nm in due)
     if V.mode == "sym":
-        if due and not _true(V, SB(lift(wsum) > 0)):
-            # the code did not need to decide it (no free slot): fine; otherwise assume it
-            V.assume(SB(lift(wsum) > 0))
-    elif due and wsum <= 0:
+        if due and nfree_expected > 0 and not _true(V, SB(lift(wsum) > 0)):
+            V.assume(SB(lift(wsum) > 0))  # free slots need a positive due weight (statement's precondition)
+    elif due and nfree_expected > 0 and wsum <= 0:
         raise symx.ReplayMismatch("all due weights zero")
     V.reach("none-due" if not due else "some-due")
     if not due:
